@@ -1,4 +1,579 @@
+(* C19/Proofs.v — lemmas for Properties.v *)
+From Coq Require Import ZifyBool ZifyNat ZifyN.
 From OV Require Import Common.Base C19.Model.
 Open Scope N_scope.
-Lemma zeros_length n : length (zeros n) = n.
-Proof. apply repeat_length. Qed.
+Ltac Zify.zify_post_hook ::= Z.div_mod_to_equations.
+
+Definition byte (b : N) : Prop := b < 256.
+Definition bytes_ok (l : bytes) : Prop := Forall byte l.
+Definition ip_ok (ip : option bytes) : Prop := match ip with Some b => bytes_ok b | None => True end.
+
+(* ================================================================== ones-complement *)
+Lemma fold_loop_spec : forall s, 0 < s -> s < 4294967296 ->
+  exists r, fold_loop fold_fuel s = Ok r /\ 0 < r /\ r <= 65535 /\ r mod 65535 = s mod 65535.
+Proof.
+  intros s Hp Hs. unfold fold_fuel. cbn [fold_loop].
+  destruct (N.leb_spec s 65535) as [H1|H1]; [exists s; repeat split; lia|].
+  set (s1 := s / 65536 + s mod 65536).
+  assert (E1 : s1 mod 65535 = s mod 65535 /\ 0 < s1 /\ s1 <= 131070) by (subst s1; lia).
+  destruct (N.leb_spec s1 65535) as [H2|H2]; [exists s1; repeat split; lia|].
+  set (s2 := s1 / 65536 + s1 mod 65536).
+  assert (E2 : s2 mod 65535 = s mod 65535 /\ 0 < s2 /\ s2 <= 65535) by (subst s2; lia).
+  destruct (N.leb_spec s2 65535) as [H3|H3]; [exists s2; repeat split; lia|lia].
+Qed.
+
+(* a checksum c' stored for a covered sum s0 makes the RFC 1071 verification succeed; c' is the
+   complement of the folded sum, or 0xFFFF / 0 when that complement is 0 *)
+Lemma csum_verifies : forall s0 c c', 0 < s0 -> s0 < 4294967296 -> csum_finish s0 = Ok c ->
+  (c' = c \/ (c = 0 /\ (c' = 65535 \/ c' = 0))) ->
+  c <= 65535 /\ ones_sum (s0 + c') = 65535.
+Proof.
+  intros s0 c c' Hp Hs Hc Hc'. unfold csum_finish, u32n in Hc.
+  replace (s0 mod 4294967296) with s0 in Hc by lia.
+  destruct (fold_loop_spec s0 Hp Hs) as [r [Hr [R0 [R1 R2]]]]. rewrite Hr in Hc. cbn [rbind] in Hc. assert (Ec : c = 65535 - r) by congruence. clear Hc. subst c.
+  split; [clear - R1; lia|]. unfold ones_sum.
+  assert (Hm : (s0 + c') mod 65535 = 0 /\ 0 < s0 + c').
+  { destruct Hc' as [->|[Hz [->| ->]]]; clear Hr; split; lia. }
+  destruct Hm as [Hm Hq]. clear - Hm Hq.
+  destruct (N.eqb_spec (s0 + c') 0) as [E|E]; [lia|]. lia.
+Qed.
+
+Lemma csum_finish_total : forall s0, 0 < s0 -> s0 < 4294967296 -> exists c, csum_finish s0 = Ok c /\ c <= 65535.
+Proof.
+  intros s0 Hp Hs. unfold csum_finish, u32n. replace (s0 mod 4294967296) with s0 by lia.
+  destruct (fold_loop_spec s0 Hp Hs) as [r [Hr [R0 [R1 R2]]]]. rewrite Hr. cbn [rbind]. eexists; split; [reflexivity|lia].
+Qed.
+
+(* induction two bytes at a time *)
+Lemma pair_ind (P : list N -> Prop) :
+  P [] -> (forall a, P [a]) -> (forall a b r, P r -> P (a :: b :: r)) -> forall l, P l.
+Proof.
+  intros H0 H1 H2. fix IH 1. intros [|a [|b r]]; [exact H0|apply H1|apply H2, IH].
+Qed.
+
+Lemma sum_skip_none_i : forall t l i, sum_skip None i t l = sum_skip None 0 t l.
+Proof.
+  intros t l. induction l as [|a|a b r IH] using pair_ind; intros i; cbn [sum_skip]; try reflexivity.
+  rewrite (IH (i + 2)), (IH (0 + 2)). reflexivity.
+Qed.
+Lemma sum_skip_past : forall k t l i, k < i -> sum_skip (Some k) i t l = sum_skip None 0 t l.
+Proof.
+  intros k t l. induction l as [|a|a b r IH] using pair_ind; intros i Hi; cbn [sum_skip]; try reflexivity.
+  destruct (N.eqb_spec k i); [lia|]. rewrite (IH (i + 2)) by lia. rewrite (sum_skip_none_i t r (0 + 2)). reflexivity.
+Qed.
+Lemma sum_words_cons2 : forall a b r, sum_words (a :: b :: r) = a * 256 + b + sum_words r.
+Proof. intros. unfold sum_words. cbn [sum_skip]. rewrite (sum_skip_none_i true r (0 + 2)). reflexivity. Qed.
+Lemma sum_words_app : forall a b, Nat.even (length a) = true -> sum_words (a ++ b) = sum_words a + sum_words b.
+Proof.
+  intros a. induction a as [|x|x y r IH] using pair_ind; intros b He.
+  - reflexivity.
+  - discriminate.
+  - cbn [app]. rewrite !sum_words_cons2, IH by exact He. lia.
+Qed.
+Lemma sum_words_bound : forall l, bytes_ok l -> sum_words l <= 65535 * N.of_nat ((length l + 1) / 2).
+Proof.
+  induction l as [|x|x y r IH] using pair_ind; intros Hb.
+  - cbn. lia.
+  - inversion Hb; subst. unfold byte in *. cbn. lia.
+  - inversion Hb as [|? ? Hx Hb1]; subst. inversion Hb1 as [|? ? Hy Hb2]; subst. unfold byte in *.
+    rewrite sum_words_cons2. specialize (IH Hb2). cbn [length].
+    replace ((S (S (length r)) + 1) / 2)%nat with (S ((length r + 1) / 2)) by lia. lia.
+Qed.
+Lemma put16_exact : forall n, n < 65536 -> sum_words (put16 n) = n.
+Proof. intros n Hn. unfold put16, byte_of, sum_words. cbn. lia. Qed.
+Lemma put16_bytes : forall n, bytes_ok (put16 n).
+Proof. intros n. unfold put16, byte_of, bytes_ok, byte. repeat constructor; lia. Qed.
+Lemma put32_bytes : forall n, bytes_ok (put32 n).
+Proof. intros n. unfold put32, byte_of, bytes_ok, byte. repeat constructor; lia. Qed.
+
+Lemma to4_some : forall ip b, to4 ip = Some b -> ip_ok ip -> length b = 4%nat /\ bytes_ok b.
+Proof.
+  intros [x|] b H Hok; [|discriminate]. unfold to4 in H. cbn [ip_ok] in Hok.
+  destruct (Nat.eqb_spec (length x) 4); [inversion H; subst; auto|].
+  destruct (Nat.eqb_spec (length x) 16); cbn [andb] in H; [|discriminate].
+  destruct (bytes_eqb _ _); [|discriminate]. assert (Eb : b = skipn 12 x) by congruence. subst b. clear H. split.
+  - rewrite skipn_length. lia.
+  - apply Forall_forall. intros y Hy. eapply Forall_forall; [exact Hok|]. rewrite <- (firstn_skipn 12 x). apply in_or_app. auto.
+Qed.
+Lemma to16_some : forall ip b, to16 ip = Some b -> ip_ok ip -> length b = 16%nat /\ bytes_ok b.
+Proof.
+  intros [x|] b H Hok; [|discriminate]. unfold to16 in H. cbn [ip_ok] in Hok.
+  destruct (Nat.eqb_spec (length x) 4).
+  - assert (Eb : b = v4in6_prefix ++ x) by congruence. subst b. clear H. split; [rewrite app_length; cbn [length v4in6_prefix]; lia|].
+    apply Forall_app. split; [unfold v4in6_prefix, byte; repeat constructor; lia|exact Hok].
+  - destruct (Nat.eqb_spec (length x) 16); [|discriminate]. inversion H; subst; auto.
+Qed.
+
+(* ================================================================== frames *)
+Lemma sum_false_even : forall l, Nat.even (length l) = true -> sum_skip None 0 false l = sum_words l.
+Proof.
+  unfold sum_words. induction l as [|x|x y r IH] using pair_ind; intros He; [reflexivity|discriminate|].
+  cbn [sum_skip]. rewrite (sum_skip_none_i false r (0+2)), (sum_skip_none_i true r (0+2)), IH by exact He. reflexivity.
+Qed.
+(* the Go loops skip the checksum word at byte offset k *)
+Lemma sum_skip_split : forall pre i k w1 w2 post t, Nat.even (length pre) = true -> k = i + N.of_nat (length pre) ->
+  sum_skip (Some k) i t (pre ++ w1 :: w2 :: post) = sum_words pre + sum_skip None 0 t post.
+Proof.
+  induction pre as [|x|x y r IH] using pair_ind; intros i k w1 w2 post t He Hk.
+  - cbn [app sum_skip length] in *. replace (k =? i) with true by lia. rewrite sum_skip_past by lia. reflexivity.
+  - discriminate.
+  - cbn [app sum_skip]. cbn [length] in Hk. replace (k =? i) with false by lia.
+    rewrite (IH (i + 2) k) by (try exact He; lia). rewrite sum_words_cons2. lia.
+Qed.
+Lemma field_csum : forall pre post c, Nat.even (length pre) = true -> c < 65536 ->
+  sum_words (pre ++ put16 c ++ post) = sum_words pre + c + sum_words post.
+Proof.
+  intros. rewrite sum_words_app by assumption. rewrite (sum_words_app (put16 c)) by reflexivity.
+  rewrite put16_exact by assumption. lia.
+Qed.
+Lemma firstn_exact {A} : forall (a b : list A) n, length a = n -> firstn n (a ++ b) = a.
+Proof. intros a b n <-. rewrite firstn_app, Nat.sub_diag, firstn_all. cbn. apply app_nil_r. Qed.
+Lemma skipn_exact {A} : forall (a b : list A) n, length a = n -> skipn n (a ++ b) = b.
+Proof. intros a b n <-. rewrite skipn_app, Nat.sub_diag, skipn_all. reflexivity. Qed.
+Lemma blen_app : forall a b, blen (a ++ b) = blen a + blen b.
+Proof. intros. unfold blen. rewrite app_length. lia. Qed.
+Lemma put16_length : forall n, length (put16 n) = 2%nat. Proof. reflexivity. Qed.
+Lemma put32_length : forall n, length (put32 n) = 4%nat. Proof. reflexivity. Qed.
+Lemma be16_put16 : forall n, n < 65536 -> be16 (nth 0 (put16 n) 0) (nth 1 (put16 n) 0) = n.
+Proof. intros. unfold put16, byte_of, be16. cbn [nth]. lia. Qed.
+
+(* what the independent verifier of the harness checks on an IPv4/UDP frame *)
+Definition pseudo4 (f : bytes) : bytes := firstn 8 (skipn 12 f) ++ [0; 17] ++ firstn 2 (skipn 24 f).
+Definition frame4_ok (f payload : bytes) : Prop :=
+  length f = (28 + length payload)%nat /\
+  firstn 2 (skipn 2 f) = put16 (blen f) /\ firstn 2 (skipn 24 f) = put16 (blen f - 20) /\
+  verifies (firstn 20 f) = true /\ verifies (pseudo4 f ++ skipn 20 f) = true /\ skipn 28 f = payload.
+Definition pseudo6 (f : bytes) : bytes := firstn 32 (skipn 8 f) ++ [0; 0] ++ firstn 2 (skipn 44 f) ++ [0; 0; 0; 17].
+Definition frame6_ok (f payload : bytes) : Prop :=
+  length f = (48 + length payload)%nat /\
+  firstn 2 (skipn 4 f) = put16 (blen f - 40) /\ firstn 2 (skipn 44 f) = put16 (blen f - 40) /\
+  verifies (pseudo6 f ++ skipn 40 f) = true /\ skipn 48 f = payload.
+
+Definition ip4_pre (total : N) : bytes := [69; 0] ++ put16 total ++ [0;0;0;0; 64; 17].
+Lemma ip4_header_split : forall total s d c, ip4_header total s d c = ip4_pre total ++ put16 c ++ (s ++ d).
+Proof. intros. unfold ip4_header, ip4_pre. rewrite <- !app_assoc. reflexivity. Qed.
+Lemma ip4_pre_props : forall total, length (ip4_pre total) = 10%nat /\ bytes_ok (ip4_pre total) /\ 0 < sum_words (ip4_pre total).
+Proof.
+  intros. split; [reflexivity|]. split.
+  - unfold ip4_pre, put16, byte_of, bytes_ok, byte. cbn [app]. repeat constructor; lia.
+  - unfold ip4_pre, put16. cbn [app]. rewrite sum_words_cons2. lia.
+Qed.
+
+(* common part: the IPv4 header built around a correct header checksum verifies *)
+Lemma ip4_header_verifies : forall total s4 d4 hc hc',
+  length s4 = 4%nat -> length d4 = 4%nat -> bytes_ok s4 -> bytes_ok d4 ->
+  csum_finish (sum_words (ip4_header total s4 d4 0)) = Ok hc -> hc' = hc ->
+  hc < 65536 /\ verifies (ip4_header total s4 d4 hc') = true.
+Proof.
+  intros total s4 d4 hc hc' Ls Ld Bs Bd Hc ->. destruct (ip4_pre_props total) as [Lp [Bp Pp]].
+  assert (Hev : Nat.even (length (ip4_pre total)) = true) by (rewrite Lp; reflexivity).
+  rewrite ip4_header_split in Hc. rewrite field_csum in Hc by (try exact Hev; lia).
+  assert (Hb : sum_words (ip4_pre total) + 0 + sum_words (s4 ++ d4) < 4294967296).
+  { pose proof (sum_words_bound (ip4_pre total) Bp) as B1. rewrite Lp in B1.
+    assert (B2 : bytes_ok (s4 ++ d4)) by (apply Forall_app; auto).
+    pose proof (sum_words_bound _ B2) as B3. rewrite app_length, Ls, Ld in B3.
+    change ((10 + 1) / 2)%nat with 5%nat in B1. change ((4 + 4 + 1) / 2)%nat with 4%nat in B3. lia. }
+  assert (Hpos : 0 < sum_words (ip4_pre total) + 0 + sum_words (s4 ++ d4)) by lia.
+  destruct (csum_verifies _ hc hc Hpos Hb Hc (or_introl eq_refl)) as [Hle Hv].
+  split; [lia|]. unfold verifies. rewrite ip4_header_split, field_csum by (try exact Hev; lia).
+  replace (sum_words (ip4_pre total) + hc + sum_words (s4 ++ d4))
+    with (sum_words (ip4_pre total) + 0 + sum_words (s4 ++ d4) + hc) by lia.
+  rewrite Hv. reflexivity.
+Qed.
+Lemma ip4_header_skip : forall total s4 d4, length s4 = 4%nat -> length d4 = 4%nat ->
+  sum_skip (Some 10) 0 false (ip4_header total s4 d4 0) = sum_words (ip4_header total s4 d4 0).
+Proof.
+  intros total s4 d4 Ls Ld. rewrite ip4_header_split. change (put16 0) with [0; 0]. cbn [app].
+  rewrite sum_skip_split with (pre := ip4_pre total) by reflexivity.
+  rewrite sum_false_even by (rewrite app_length, Ls, Ld; reflexivity).
+  change (ip4_pre total ++ 0 :: 0 :: s4 ++ d4) with (ip4_pre total ++ put16 0 ++ (s4 ++ d4)).
+  rewrite field_csum by (try reflexivity; lia). lia.
+Qed.
+
+Definition udp_pre (sp dp ulen : N) : bytes := put16 sp ++ put16 dp ++ put16 ulen.
+Lemma udp_header_split : forall sp dp ulen c p, udp_header sp dp ulen c ++ p = udp_pre sp dp ulen ++ put16 c ++ p.
+Proof. intros. unfold udp_header, udp_pre. rewrite <- !app_assoc. reflexivity. Qed.
+Lemma udp_pre_sum : forall sp dp ulen, sp < 65536 -> dp < 65536 -> ulen < 65536 -> sum_words (udp_pre sp dp ulen) = sp + dp + ulen.
+Proof.
+  intros. unfold udp_pre. rewrite !sum_words_app by reflexivity. rewrite !put16_exact by assumption. lia.
+Qed.
+Lemma udp_seg_sum : forall sp dp ulen c p, sp < 65536 -> dp < 65536 -> ulen < 65536 -> c < 65536 ->
+  sum_words (udp_header sp dp ulen c ++ p) = sp + dp + ulen + c + sum_words p.
+Proof.
+  intros. rewrite udp_header_split, field_csum by (try reflexivity; assumption). rewrite udp_pre_sum by assumption. lia.
+Qed.
+Lemma udp_seg_skip : forall sp dp ulen p, sp < 65536 -> dp < 65536 -> ulen < 65536 ->
+  sum_skip (Some 6) 0 true (udp_header sp dp ulen 0 ++ p) = sp + dp + ulen + sum_words p.
+Proof.
+  intros. rewrite udp_header_split. change (put16 0) with [0; 0]. cbn [app].
+  rewrite sum_skip_split with (pre := udp_pre sp dp ulen) by reflexivity. rewrite udp_pre_sum by assumption. reflexivity.
+Qed.
+Lemma payload_sum_bound : forall p, bytes_ok p -> blen p <= 65535 -> sum_words p <= 2147450880.
+Proof.
+  intros p Hb Hl. pose proof (sum_words_bound p Hb) as B. unfold blen in Hl. lia.
+Qed.
+Lemma sum4_bound : forall s, length s = 4%nat -> bytes_ok s -> sum_words s <= 131070.
+Proof. intros s L B. pose proof (sum_words_bound s B) as H. rewrite L in H. change ((4 + 1) / 2)%nat with 2%nat in H. lia. Qed.
+Lemma sum16_bound : forall s, length s = 16%nat -> bytes_ok s -> sum_words s <= 524280.
+Proof. intros s L B. pose proof (sum_words_bound s B) as H. rewrite L in H. change ((16 + 1) / 2)%nat with 8%nat in H. lia. Qed.
+
+Ltac cells4 s L := destruct s as [|? [|? [|? [|? [|? ?]]]]]; try (cbn in L; discriminate L).
+
+Lemma build_ipv4_udp_frame_ok : forall v src dst sp dp payload s4 d4,
+  to4 src = Some s4 -> to4 dst = Some d4 -> ip_ok src -> ip_ok dst -> bytes_ok payload ->
+  sp < 65536 -> dp < 65536 -> blen payload <= 65507 ->
+  exists f, build_ipv4_udp_frame v src dst sp dp payload = Ok (Some f) /\ frame4_ok f payload /\
+            (v = Repaired -> firstn 2 (skipn 26 f) <> [0; 0]).
+Proof.
+  intros v src dst sp dp payload s4 d4 Hs Hd Os Od Bp Hsp Hdp Hl.
+  destruct (to4_some _ _ Hs Os) as [Ls Bs]. destruct (to4_some _ _ Hd Od) as [Ld Bd].
+  unfold build_ipv4_udp_frame. rewrite Hs, Hd.
+  set (ulen := 8 + blen payload). set (total := 20 + ulen).
+  assert (Hul : ulen < 65536) by (subst ulen; lia).
+  rewrite ip4_header_skip by assumption.
+  destruct (ip4_pre_props total) as [Lp [Bpre Pp]].
+  (* header checksum exists *)
+  assert (Hh : exists hc, csum_finish (sum_words (ip4_header total s4 d4 0)) = Ok hc).
+  { destruct (csum_finish_total (sum_words (ip4_header total s4 d4 0))) as [c [Hc _]]; [| |eauto].
+    - rewrite ip4_header_split, field_csum by (try (rewrite Lp; reflexivity); lia). lia.
+    - rewrite ip4_header_split, field_csum by (try (rewrite Lp; reflexivity); lia).
+      pose proof (sum_words_bound _ Bpre) as B1. rewrite Lp in B1. change ((10 + 1) / 2)%nat with 5%nat in B1.
+      assert (B2 : bytes_ok (s4 ++ d4)) by (apply Forall_app; auto).
+      pose proof (sum_words_bound _ B2) as B3. rewrite app_length, Ls, Ld in B3. change ((4 + 4 + 1) / 2)%nat with 4%nat in B3. lia. }
+  destruct Hh as [hc Hhc]. rewrite Hhc. cbn [rbind].
+  destruct (ip4_header_verifies total s4 d4 hc hc Ls Ld Bs Bd Hhc eq_refl) as [Hhc16 Hhv].
+  (* UDP checksum *)
+  unfold udp4_csum. rewrite udp_seg_skip by assumption.
+  assert (Ebl : blen (udp_header sp dp ulen 0 ++ payload) = ulen).
+  { rewrite blen_app. subst ulen. unfold blen. cbn [udp_header put16 app length]. lia. }
+  rewrite Ebl.
+  pose proof (payload_sum_bound payload Bp ltac:(lia)) as Bpl.
+  pose proof (sum4_bound s4 Ls Bs) as B4s. pose proof (sum4_bound d4 Ld Bd) as B4d.
+  set (s0 := sum_words s4 + sum_words d4 + 17 + ulen + (sp + dp + ulen + sum_words payload)).
+  assert (Hs0 : 0 < s0 /\ s0 < 4294967296) by (subst s0; lia).
+  destruct (csum_finish_total s0) as [uc0 [Huc0 Huc16]]; try tauto. rewrite Huc0. cbn [rbind].
+  set (uc := if uc0 =? 0 then match v with Defective => 0 | Repaired => 65535 end else uc0).
+  assert (Huc : uc < 65536 /\ (uc = uc0 \/ (uc0 = 0 /\ (uc = 65535 \/ uc = 0)))).
+  { subst uc. destruct (N.eqb_spec uc0 0); [destruct v|]; split; try lia; auto. }
+  destruct (csum_verifies s0 uc0 uc (proj1 Hs0) (proj2 Hs0) Huc0 (proj2 Huc)) as [_ Hv].
+  eexists. split; [reflexivity|].
+  cells4 s4 Ls. cells4 d4 Ld.
+  unfold frame4_ok, pseudo4, ip4_header, udp_header, put16. cbn [app firstn skipn length].
+  assert (Eblen : forall x, blen (69 :: 0 :: x ++ payload) = 2 + blen (x ++ payload)) by (intros; unfold blen; cbn [length]; lia).
+  split.
+  { split; [lia|]. split.
+    { unfold blen. cbn [length]. f_equal; [|f_equal]; f_equal; subst total ulen; unfold blen; lia. }
+    split.
+    { unfold blen. cbn [length]. f_equal; [|f_equal]; f_equal; subst total ulen; unfold blen; lia. }
+    split; [exact Hhv|]. split; [|reflexivity].
+    unfold verifies.
+    match goal with |- ones_sum (sum_words ?l) =? _ = true =>
+      change l with (([n; n0; n1; n2] ++ [n3; n4; n5; n6]) ++ [0; 17] ++ put16 ulen ++ (udp_header sp dp ulen uc ++ payload)) end.
+    rewrite sum_words_app by reflexivity. rewrite (sum_words_app [0; 17]) by reflexivity.
+    rewrite (sum_words_app (put16 ulen)) by reflexivity. rewrite (sum_words_app [n; n0; n1; n2]) by reflexivity.
+    rewrite put16_exact, udp_seg_sum by (try assumption; lia).
+    change (sum_words [0; 17]) with 17.
+    replace (sum_words [n; n0; n1; n2] + sum_words [n3; n4; n5; n6] + (17 + (ulen + (sp + dp + ulen + uc + sum_words payload))))
+      with (s0 + uc) by (subst s0; lia).
+    rewrite Hv. reflexivity. }
+  intros ->. subst uc. unfold byte_of.
+  destruct (N.eqb_spec uc0 0) as [E|E].
+  - cbn. discriminate.
+  - intros Hz. injection Hz as H1 H2. lia.
+Qed.
+
+Ltac cells16 s L := do 16 (destruct s as [|? s]; [cbn in L; discriminate L|]); destruct s; [|cbn in L; discriminate L].
+
+Lemma build_ipv6_udp_frame_ok : forall src dst sp dp payload s16 d16,
+  to16 src = Some s16 -> to16 dst = Some d16 -> ip_ok src -> ip_ok dst -> bytes_ok payload ->
+  sp < 65536 -> dp < 65536 -> blen payload <= 65527 ->
+  exists f, build_ipv6_udp_frame src dst sp dp payload = Ok (Some f) /\ frame6_ok f payload /\
+            firstn 2 (skipn 46 f) <> [0; 0].
+Proof.
+  intros src dst sp dp payload s16 d16 Hs Hd Os Od Bp Hsp Hdp Hl.
+  destruct (to16_some _ _ Hs Os) as [Ls Bs]. destruct (to16_some _ _ Hd Od) as [Ld Bd].
+  unfold build_ipv6_udp_frame. rewrite Hs, Hd.
+  set (ulen := 8 + blen payload).
+  assert (Hul : ulen < 65536) by (subst ulen; lia).
+  unfold udp6_csum. rewrite udp_seg_skip by assumption.
+  assert (Ebl : blen (udp_header sp dp ulen 0 ++ payload) = ulen).
+  { rewrite blen_app. subst ulen. unfold blen. cbn [udp_header put16 app length]. lia. }
+  rewrite Ebl.
+  pose proof (payload_sum_bound payload Bp ltac:(lia)) as Bpl.
+  pose proof (sum16_bound s16 Ls Bs) as B4s. pose proof (sum16_bound d16 Ld Bd) as B4d.
+  set (s0 := sum_words s16 + sum_words d16 + ulen + 17 + (sp + dp + ulen + sum_words payload)).
+  assert (Hs0 : 0 < s0 /\ s0 < 4294967296) by (subst s0; lia).
+  destruct (csum_finish_total s0) as [uc0 [Huc0 Huc16]]; try tauto. rewrite Huc0. cbn [rbind].
+  set (uc := if uc0 =? 0 then 65535 else uc0).
+  assert (Huc : uc < 65536 /\ (uc = uc0 \/ (uc0 = 0 /\ (uc = 65535 \/ uc = 0)))).
+  { subst uc. destruct (N.eqb_spec uc0 0); split; try lia; auto. }
+  destruct (csum_verifies s0 uc0 uc (proj1 Hs0) (proj2 Hs0) Huc0 (proj2 Huc)) as [_ Hv].
+  eexists. split; [reflexivity|].
+  assert (Hsum : sum_words ((s16 ++ d16) ++ [0; 0] ++ put16 ulen ++ [0; 0; 0; 17] ++ (udp_header sp dp ulen uc ++ payload)) = s0 + uc).
+  { rewrite sum_words_app by (rewrite app_length, Ls, Ld; reflexivity).
+    rewrite (sum_words_app s16) by (rewrite Ls; reflexivity).
+    rewrite (sum_words_app [0; 0]) by reflexivity. rewrite (sum_words_app (put16 ulen)) by reflexivity.
+    rewrite (sum_words_app [0; 0; 0; 17]) by reflexivity.
+    rewrite put16_exact, udp_seg_sum by (try assumption; lia).
+    change (sum_words [0; 0]) with 0. change (sum_words [0; 0; 0; 17]) with 17. subst s0. lia. }
+  cells16 s16 Ls. cells16 d16 Ld.
+  unfold frame6_ok, pseudo6, ip6_header, udp_header, put16 in *. cbn [app firstn skipn length] in *.
+  split.
+  { split; [lia|]. split.
+    { unfold blen. cbn [length]. f_equal; [|f_equal]; f_equal; subst ulen; unfold blen; lia. }
+    split.
+    { unfold blen. cbn [length]. f_equal; [|f_equal]; f_equal; subst ulen; unfold blen; lia. }
+    split; [|reflexivity].
+    unfold verifies. rewrite Hsum, Hv. reflexivity. }
+  subst uc. unfold byte_of.
+  destruct (N.eqb_spec uc0 0) as [E|E].
+  - cbn. discriminate.
+  - intros Hz. injection Hz as H1 H2. lia.
+Qed.
+
+(* ================================================================== DHCPv4 options: specification side *)
+Inductive item := Pad | Opt (c : N) (d : bytes).
+Definition enc_item (it : item) : bytes := match it with Pad => [0] | Opt c d => c :: blen d :: d end.
+Definition enc (its : list item) : bytes := concat (map enc_item its).
+Definition item_ok (it : item) : Prop :=
+  match it with Pad => True | Opt c d => c <> 0 /\ c <> 255 /\ (length d <= 255)%nat end.
+Fixpoint opts_of (its : list item) : list (N * bytes) :=
+  match its with [] => [] | Pad :: r => opts_of r | Opt c d :: r => (c, d) :: opts_of r end.
+Definition is_code (code : N) (it : item) : bool := match it with Opt c _ => c =? code | Pad => false end.
+Fixpoint ranges_of (code : N) (i : nat) (its : list item) : list (nat * nat) :=
+  match its with
+  | [] => []
+  | it :: r => (if is_code code it then [(i, (i + length (enc_item it))%nat)] else [])
+               ++ ranges_of code (i + length (enc_item it)) r
+  end.
+Definition drop_code (code : N) (its : list item) : list item := filter (fun it => negb (is_code code it)) its.
+(* a well-formed options area: pads and complete options, then END, then anything *)
+Definition wf_pkt (hdr : bytes) (its : list item) (trail : bytes) : bytes := hdr ++ enc its ++ 255 :: trail.
+
+Lemma enc_cons : forall it r, enc (it :: r) = enc_item it ++ enc r. Proof. reflexivity. Qed.
+Lemma enc_app : forall a b, enc (a ++ b) = enc a ++ enc b.
+Proof. intros. unfold enc. rewrite map_app, concat_app. reflexivity. Qed.
+Lemma to_nat_blen : forall d, N.to_nat (blen d) = length d. Proof. intros. unfold blen. lia. Qed.
+Lemma ltb_app_false : forall (d r : bytes), (length (d ++ r) <? length d)%nat = false.
+Proof. intros. rewrite app_length. apply Nat.ltb_ge. lia. Qed.
+
+Lemma scan_opts_enc : forall code its f i tl acc, Forall item_ok its ->
+  scan_opts code (length its + f) i (enc its ++ tl) acc =
+  scan_opts code f (i + length (enc its)) tl (acc ++ ranges_of code i its).
+Proof.
+  intros code its. induction its as [|it r IH]; intros f i tl acc Hok.
+  - cbn [length enc concat map app ranges_of plus]. rewrite Nat.add_0_r, app_nil_r. reflexivity.
+  - inversion Hok as [|? ? Hit Hr]; subst. rewrite enc_cons, <- app_assoc. cbn [length plus].
+    destruct it as [|c d].
+    + cbn [enc_item app scan_opts ranges_of is_code length]. change (0 =? 0) with true. cbn iota.
+      replace (i + 1)%nat with (S i) by lia. rewrite IH by assumption. f_equal; lia.
+    + destruct Hit as [H0 [H255 Hlen]].
+      cbn [enc_item app scan_opts ranges_of is_code length].
+      destruct (N.eqb_spec c 0); [contradiction|]. destruct (N.eqb_spec c 255); [contradiction|].
+      rewrite to_nat_blen, ltb_app_false, skipn_exact by reflexivity.
+      replace (i + S (S (length (d ++ enc r))))%nat with ((i + 2 + length d) + length (enc r))%nat by (rewrite app_length; lia).
+      replace (i + S (S (length d)))%nat with (i + 2 + length d)%nat by lia.
+      rewrite IH by assumption.
+      destruct (c =? code); rewrite <- ?app_assoc; reflexivity.
+Qed.
+
+Lemma find_loop_enc_absent : forall code its f i tl, Forall item_ok its -> ranges_of code i its = [] ->
+  find_loop code (length its + f) i (enc its ++ tl) = find_loop code f (i + length (enc its)) tl.
+Proof.
+  intros code its. induction its as [|it r IH]; intros f i tl Hok Hr.
+  - cbn [length enc concat map app plus]. rewrite Nat.add_0_r. reflexivity.
+  - inversion Hok as [|? ? Hit Hr']; subst. rewrite enc_cons, <- app_assoc. cbn [length plus].
+    destruct it as [|c d].
+    + cbn [enc_item app find_loop length]. change (0 =? 0) with true. cbn iota.
+      cbn [ranges_of is_code enc_item length app] in Hr. replace (i + 1)%nat with (S i) in Hr by lia.
+      rewrite IH by assumption. f_equal; lia.
+    + destruct Hit as [H0 [H255 Hlen]]. cbn [ranges_of is_code] in Hr.
+      cbn [enc_item app find_loop length].
+      destruct (N.eqb_spec c 0); [contradiction|]. destruct (N.eqb_spec c 255); [contradiction|].
+      destruct (N.eqb_spec c code); [discriminate Hr|]. cbn [app] in Hr.
+      rewrite to_nat_blen, skipn_exact by reflexivity.
+      cbn [enc_item length] in Hr. replace (i + S (S (length d)))%nat with (i + 2 + length d)%nat in Hr by lia.
+      replace (i + S (S (length (d ++ enc r))))%nat with ((i + 2 + length d) + length (enc r))%nat by (rewrite app_length; lia).
+      apply IH; assumption.
+Qed.
+
+Lemma end_loop_enc : forall its f i tl, Forall item_ok its ->
+  end_loop (length its + f) i (enc its ++ tl) = end_loop f (i + length (enc its)) tl.
+Proof.
+  induction its as [|it r IH]; intros f i tl Hok.
+  - cbn [length enc concat map app plus]. rewrite Nat.add_0_r. reflexivity.
+  - inversion Hok as [|? ? Hit Hr']; subst. rewrite enc_cons, <- app_assoc. cbn [length plus].
+    destruct it as [|c d].
+    + cbn [enc_item app end_loop length]. change (0 =? 0) with true. cbn iota. rewrite IH by assumption. f_equal; lia.
+    + destruct Hit as [H0 [H255 Hlen]]. cbn [enc_item app end_loop length].
+      destruct (N.eqb_spec c 0); [contradiction|]. destruct (N.eqb_spec c 255); [contradiction|].
+      rewrite to_nat_blen, skipn_exact by reflexivity.
+      replace (i + S (S (length (d ++ enc r))))%nat with ((i + 2 + length d) + length (enc r))%nat by (rewrite app_length; lia).
+      apply IH; assumption.
+Qed.
+
+Lemma ref_walk_enc : forall its f tl, Forall item_ok its ->
+  ref_walk (length its + f) (enc its ++ tl) =
+  (opts_of its ++ fst (ref_walk f tl), snd (ref_walk f tl)).
+Proof.
+  induction its as [|it r IH]; intros f tl Hok.
+  - cbn [length enc concat map app plus opts_of]. destruct (ref_walk f tl); reflexivity.
+  - inversion Hok as [|? ? Hit Hr']; subst. rewrite enc_cons, <- app_assoc. cbn [length plus].
+    destruct it as [|c d].
+    + cbn [enc_item app ref_walk opts_of]. change (0 =? 0) with true. cbn iota. apply IH; assumption.
+    + destruct Hit as [H0 [H255 Hlen]]. cbn [enc_item app ref_walk opts_of].
+      destruct (N.eqb_spec c 0); [contradiction|]. destruct (N.eqb_spec c 255); [contradiction|].
+      rewrite to_nat_blen, ltb_app_false, skipn_exact, firstn_exact by reflexivity.
+      rewrite IH by assumption. reflexivity.
+Qed.
+
+Lemma enc_item_length_pos : forall it, (1 <= length (enc_item it))%nat.
+Proof. destruct it; cbn [enc_item length]; lia. Qed.
+Lemma enc_length_ge : forall its, (length its <= length (enc its))%nat.
+Proof.
+  induction its as [|it r IH]; [cbn; lia|]. rewrite enc_cons, app_length. cbn [length].
+  pose proof (enc_item_length_pos it). lia.
+Qed.
+
+Lemma remove_ranges_enc : forall code its pre rest,
+  remove_ranges (pre ++ enc its ++ rest) (ranges_of code (length pre) its) = pre ++ enc (drop_code code its) ++ rest.
+Proof.
+  intros code its. induction its as [|it r IH]; intros pre rest; [reflexivity|].
+  cbn [ranges_of]. rewrite enc_cons.
+  assert (E : pre ++ (enc_item it ++ enc r) ++ rest = (pre ++ enc_item it) ++ enc r ++ rest) by (rewrite <- !app_assoc; reflexivity).
+  specialize (IH (pre ++ enc_item it) rest). rewrite app_length in IH.
+  unfold drop_code. cbn [filter]. fold (drop_code code r).
+  destruct (is_code code it); cbn [negb app].
+  - unfold remove_ranges in *. cbn [fold_right fst snd]. rewrite E, IH. unfold remove_range.
+    rewrite <- !app_assoc. rewrite firstn_exact by reflexivity.
+    rewrite (app_assoc pre (enc_item it)). rewrite skipn_exact by (rewrite app_length; reflexivity). reflexivity.
+  - rewrite E, IH, enc_cons, <- !app_assoc. reflexivity.
+Qed.
+Lemma removed_total_enc : forall code its i,
+  (removed_total (ranges_of code i its) + length (enc (drop_code code its)) = length (enc its))%nat.
+Proof.
+  intros code its. induction its as [|it r IH]; intros i; [reflexivity|].
+  cbn [ranges_of]. unfold drop_code. cbn [filter]. fold (drop_code code r). rewrite enc_cons, app_length.
+  specialize (IH (i + length (enc_item it))%nat).
+  destruct (is_code code it); cbn [negb app].
+  - unfold removed_total in *. cbn [fold_right fst snd]. lia.
+  - rewrite enc_cons, app_length. lia.
+Qed.
+Lemma ranges_nil_iff : forall code its i, ranges_of code i its = [] <-> existsb (is_code code) its = false.
+Proof.
+  intros code its. induction its as [|it r IH]; intros i; [cbn; tauto|].
+  cbn [ranges_of existsb]. destruct (is_code code it); cbn [app orb].
+  - split; discriminate.
+  - apply IH.
+Qed.
+Lemma drop_code_absent : forall code its, existsb (is_code code) its = false -> drop_code code its = its.
+Proof.
+  intros code its. induction its as [|it r IH]; intros H; [reflexivity|].
+  cbn [existsb] in H. apply orb_false_iff in H. destruct H as [H1 H2].
+  unfold drop_code. cbn [filter]. rewrite H1. cbn [negb]. fold (drop_code code r). rewrite IH by assumption. reflexivity.
+Qed.
+Lemma drop_code_ok : forall code its, Forall item_ok its -> Forall item_ok (drop_code code its).
+Proof. intros. unfold drop_code. apply Forall_forall. intros x Hx. apply filter_In in Hx. eapply Forall_forall; [eassumption|tauto]. Qed.
+Lemma opts_of_drop : forall code its,
+  opts_of (drop_code code its) = filter (fun o => negb (fst o =? code)) (opts_of its).
+Proof.
+  intros code its. induction its as [|[|c d] r IH]; [reflexivity| |].
+  - unfold drop_code. cbn [filter is_code negb opts_of]. exact IH.
+  - unfold drop_code. cbn [filter is_code opts_of fst]. fold (drop_code code r).
+    destruct (c =? code); cbn [negb opts_of]; rewrite IH; reflexivity.
+Qed.
+Lemma opts_of_app : forall a b, opts_of (a ++ b) = opts_of a ++ opts_of b.
+Proof. induction a as [|[|c d] r IH]; intros b; cbn [app opts_of]; rewrite ?IH; reflexivity. Qed.
+
+Lemma scan_wf : forall code hdr its trail, length hdr = 240%nat -> Forall item_ok its ->
+  scan_opts code (S (length (wf_pkt hdr its trail))) opt_start (skipn opt_start (wf_pkt hdr its trail)) [] =
+  Ok (Some (240 + length (enc its))%nat, ranges_of code 240 its).
+Proof.
+  intros code hdr its trail Lh Hok. unfold wf_pkt, opt_start. rewrite skipn_exact by assumption.
+  pose proof (enc_length_ge its) as Hge.
+  set (P := hdr ++ enc its ++ 255 :: trail).
+  replace (S (length P)) with (length its + S (length P - length its))%nat
+    by (subst P; rewrite !app_length; lia).
+  rewrite scan_opts_enc by assumption. cbn [scan_opts app]. reflexivity.
+Qed.
+Lemma wf_pkt_len : forall hdr its trail, length hdr = 240%nat -> (length (wf_pkt hdr its trail) <? opt_start)%nat = false.
+Proof. intros. unfold wf_pkt, opt_start. rewrite app_length. apply Nat.ltb_ge. lia. Qed.
+
+Definition replaced82 (hdr : bytes) (its : list item) (o82 trail : bytes) : bytes :=
+  hdr ++ enc (drop_code 82 its) ++ o82 ++ 255 :: trail.
+
+Lemma insert_option82_repaired : forall hdr its trail o82 pol, length hdr = 240%nat -> Forall item_ok its ->
+  insert_option82 Repaired (wf_pkt hdr its trail) o82 pol =
+  Ok (match pol with
+      | Replace => replaced82 hdr its o82 trail
+      | Drop => wf_pkt hdr (drop_code 82 its) trail
+      | Keep => if existsb (is_code 82) its then wf_pkt hdr its trail else replaced82 hdr its o82 trail
+      end).
+Proof.
+  intros hdr its trail o82 pol Lh Hok. unfold insert_option82.
+  rewrite wf_pkt_len, scan_wf by assumption. cbn [rbind].
+  assert (Erm : remove_ranges (wf_pkt hdr its trail) (ranges_of 82 240 its) = wf_pkt hdr (drop_code 82 its) trail).
+  { unfold wf_pkt. rewrite <- Lh. apply remove_ranges_enc. }
+  assert (Erep : insert_at (remove_ranges (wf_pkt hdr its trail) (ranges_of 82 240 its))
+                           (240 + length (enc its) - removed_total (ranges_of 82 240 its)) o82 = replaced82 hdr its o82 trail).
+  { rewrite Erm. pose proof (removed_total_enc 82 its 240) as Hrt.
+    replace (240 + length (enc its) - removed_total (ranges_of 82 240 its))%nat with (length (hdr ++ enc (drop_code 82 its)))
+      by (rewrite app_length; lia).
+    unfold insert_at, wf_pkt, replaced82.
+    replace (hdr ++ enc (drop_code 82 its) ++ 255 :: trail) with ((hdr ++ enc (drop_code 82 its)) ++ 255 :: trail)
+      by (rewrite <- app_assoc; reflexivity).
+    rewrite firstn_exact, skipn_exact by reflexivity.
+    rewrite <- !app_assoc. reflexivity. }
+  destruct pol.
+  - destruct (ranges_of 82 240 its) eqn:Er.
+    + pose proof (proj1 (ranges_nil_iff 82 its 240) Er) as Ee. rewrite Ee. try rewrite Er in Erep. rewrite Erep. reflexivity.
+    + assert (Hex : existsb (is_code 82) its = true).
+      { destruct (existsb (is_code 82) its) eqn:E; [reflexivity|]. apply (ranges_nil_iff 82 its 240) in E. congruence. }
+      rewrite Hex. reflexivity.
+  - rewrite Erm. reflexivity.
+  - rewrite Erep. reflexivity.
+Qed.
+
+Lemma strip_option82_repaired : forall hdr its trail, length hdr = 240%nat -> Forall item_ok its ->
+  strip_option82 Repaired (wf_pkt hdr its trail) = Ok (wf_pkt hdr (drop_code 82 its) trail).
+Proof.
+  intros hdr its trail Lh Hok. unfold strip_option82. rewrite wf_pkt_len, scan_wf by assumption. cbn [rbind].
+  unfold wf_pkt. rewrite <- Lh. rewrite remove_ranges_enc. reflexivity.
+Qed.
+
+(* decoding a well-formed packet with the reference decoder *)
+Lemma ref_options_wf : forall hdr its trail, length hdr = 240%nat -> Forall item_ok its ->
+  ref_options (wf_pkt hdr its trail) = (opts_of its, EndSeen trail).
+Proof.
+  intros hdr its trail Lh Hok. unfold ref_options, wf_pkt, opt_start. rewrite skipn_exact by assumption.
+  pose proof (enc_length_ge its) as Hge.
+  set (P := hdr ++ enc its ++ 255 :: trail).
+  replace (S (length P)) with (length its + S (length P - length its))%nat
+    by (subst P; rewrite !app_length; lia).
+  rewrite ref_walk_enc by assumption. cbn [ref_walk fst snd]. change (255 =? 0) with false. change (255 =? 255) with true.
+  cbn iota. cbn [fst snd]. rewrite app_nil_r. reflexivity.
+Qed.
+
+Definition not_code (code : N) (o : N * bytes) : bool := negb (fst o =? code).
+
+Lemma opt82_replace_faithful : forall hdr its trail d, length hdr = 240%nat -> Forall item_ok its -> (length d <= 255)%nat ->
+  exists out, insert_option82 Repaired (wf_pkt hdr its trail) (82 :: blen d :: d) Replace = Ok out /\
+    firstn 240 out = hdr /\
+    ref_options out = (filter (not_code 82) (opts_of its) ++ [(82, d)], EndSeen trail).
+Proof.
+  intros hdr its trail d Lh Hok Hd. rewrite insert_option82_repaired by assumption. eexists. split; [reflexivity|].
+  unfold replaced82. split; [apply firstn_exact; assumption|].
+  replace (82 :: blen d :: d) with (enc [Opt 82 d]) by (unfold enc; cbn [map concat enc_item]; apply app_nil_r).
+  replace (hdr ++ enc (drop_code 82 its) ++ enc [Opt 82 d] ++ 255 :: trail) with (wf_pkt hdr (drop_code 82 its ++ [Opt 82 d]) trail)
+    by (unfold wf_pkt; rewrite enc_app, <- !app_assoc; reflexivity).
+  rewrite ref_options_wf; [|assumption|].
+  - rewrite opts_of_app, opts_of_drop. reflexivity.
+  - apply Forall_app. split; [apply drop_code_ok; assumption|]. constructor; [|constructor]. cbn [item_ok]. repeat split; [lia|lia|exact Hd].
+Qed.
+
+(* concrete packets used by the non-vacuity examples and the refutation witnesses *)
+Definition ex_hdr : bytes := zeros 236 ++ magic.
+Definition ex_two82 : list item := [Opt 53 [1]; Pad; Opt 82 [1;1;65]; Opt 82 [1;1;66]].
+Lemma ex_two82_ok : Forall item_ok ex_two82.
+Proof. unfold ex_two82. repeat (constructor; [cbn [item_ok length]; try exact I; repeat split; lia|]). constructor. Qed.
+
